@@ -73,7 +73,7 @@ def _install():
         try:
             r = fn()
         except BaseException as ex:  # noqa: B902
-            return ["x", type(ex).__name__], ex
+            return ["x", E.exc_name(ex)], ex
         try:
             return ["v"] + enc(r), None
         except Exception:
@@ -110,7 +110,7 @@ def _install():
 
     def oc(res, exc, enc):
         if exc is not None:
-            return ["x", type(exc).__name__]
+            return ["x", E.exc_name(exc)]
         return ["v"] + enc(res)
 
     def strand_sym(s):
